@@ -1,9 +1,7 @@
-//go:build verif
+//go:build verif && verif_digest
 
 package auth
 
 func VerifAuthDigest(serverID string, sharedSecret, publicKey []byte) string {
 	return authDigest(serverID, sharedSecret, publicKey)
 }
-
-func VerifTwosComplement(p []byte) []byte { return twosComplement(p) }
